@@ -1,6 +1,6 @@
 (* C17 property theorems: statements only. *)
-From VF Require Import C17.Cost C17.Proofs C17.Check C17.ProofsCheck C01.Order C01.SortedMap C01.RB C01.AVL C01.BTree
-  C02.Inv.
+From VF Require Import C17.Cost C17.BTCost C17.Proofs C17.ProofsBT C17.Check C17.ProofsCheck C17.ProofsTree
+  C01.Order C01.SortedMap C01.RB C01.AVL C01.BTree C01.Containers C02.Inv.
 Local Open Scope Z_scope.
 
 (* Comparator calls of one point operation, as a function of the tree it starts from, are bounded by the very
@@ -36,6 +36,48 @@ Theorem C17_bsearch_cost : forall K V (cmp : K -> K -> Z) k es,
   (search_cost K V cmp k es <= Nat.log2 (length es) + 1)%nat.
 Proof. exact search_cost_bound. Qed.
 
+(* B-tree Put and Remove (BTCost.put_cost / remove_cost: the in-node searches of the descent PLUS the searches of the
+   parent made by splitNonRoot resp. leftSibling/rightSibling during rebalancing): at most 2 resp. 3 in-node
+   searches per level, i.e. the bounds Check.bound_op applies to the implementation's counts,
+   2 resp. 3 times log2(n+1) * (log2(m-1) + 1), for every tree with the C02 shape and hence after any history *)
+Theorem C17_bt_put_cost : forall K V (cmp : K -> K -> Z) m (r : option (BTree.node K V)) k v, (3 <= m)%nat ->
+  BTShape K V m r ->
+  Z.of_nat (put_cost K V cmp m r k v) <= bound_op (KBT m) Check.BPut (Z.of_nat (root_entries r)).
+Proof. exact bt_put_bound_check. Qed.
+Theorem C17_bt_remove_cost : forall K V (cmp : K -> K -> Z) m (r : option (BTree.node K V)) k, (3 <= m)%nat ->
+  BTShape K V m r ->
+  Z.of_nat (remove_cost K V cmp m r k) <= bound_op (KBT m) Check.BRemove (Z.of_nat (root_entries r)).
+Proof. exact bt_remove_bound_check. Qed.
+Theorem C17_bt_mut_after_any_history : forall K V (cmp : K -> K -> Z) (zeroV : V) m, CmpLaws cmp -> (3 <= m)%nat ->
+  forall ops k v,
+  let r := BTree.root (fst (run (BTree.step K V cmp zeroV m) (BTree.empty K V) ops)) in
+  Z.of_nat (put_cost K V cmp m r k v) <= bound_op (KBT m) Check.BPut (Z.of_nat (root_entries r)) /\
+  Z.of_nat (remove_cost K V cmp m r k) <= bound_op (KBT m) Check.BRemove (Z.of_nat (root_entries r)).
+Proof. exact bt_reachable_mut_cost. Qed.
+
+(* treemap / treeset delegate every point operation to the red-black tree they wrap (C01.Containers): the tree
+   they hold keeps the red-black shape through every history of map / set operations, so the red-black bound
+   applies to their Put/Add (rb_put_cost) and Get/Contains/Remove/Floor/Ceiling (path_cost) *)
+Theorem C17_treemap_after_any_history : forall K V (cmp : K -> K -> Z) (zeroK : K) (zeroV : V) ops x,
+  let t := RB.root (fst (run (treemap_step K V cmp zeroK zeroV) (RB.empty K V) ops)) in
+  Z.of_nat (rb_put_cost K V color cmp x t) <= bound_get KRB (Z.of_nat (count t)) /\
+  Z.of_nat (path_cost K V color cmp x t) <= bound_get KRB (Z.of_nat (count t)).
+Proof. exact treemap_cost. Qed.
+Theorem C17_treeset_after_any_history : forall K (cmp : K -> K -> Z) ops x,
+  let t := RB.root (fst (run (treeset_step K cmp) (RB.empty K unit) ops)) in
+  Z.of_nat (rb_put_cost K unit color cmp x t) <= bound_get KRB (Z.of_nat (count t)) /\
+  Z.of_nat (path_cost K unit color cmp x t) <= bound_get KRB (Z.of_nat (count t)).
+Proof. exact treeset_cost. Qed.
+
+(* non-vacuity for the B-tree: order 3, ten ascending keys; inserting a new maximum costs 5 comparisons on the way
+   down and 3 more in parents of split nodes; removing the minimum costs 3 on the way down and 4 in rebalancing *)
+Example C17_bt_nonvacuous :
+  let r := BTree.root (fst (run (BTree.step Z Z zcmp 0 3) (BTree.empty Z Z)
+                                (map (fun k => Put k k) [1; 2; 3; 4; 5; 6; 7; 8; 9; 10]))) in
+  root_entries r = 10%nat /\ put_cost Z Z zcmp 3 r 100 100 = 8%nat /\ remove_cost Z Z zcmp 3 r 1 = 7%nat /\
+  bound_op (KBT 3) Check.BPut 10 = 12 /\ bound_op (KBT 3) Check.BRemove 10 = 18.
+Proof. vm_compute. repeat split. Qed.
+
 Example C17_nonvacuous :
   let t := RB.root (fst (run (RB.step Z Z zcmp 0) (RB.empty Z Z) (map (fun k => Put k k) [5; 3; 8; 1; 4; 7; 9; 2; 6]))) in
   count t = 9%nat /\ path_cost Z Z color zcmp 6 t = 4%nat /\ bound_get KRB 9 = 7.
@@ -48,3 +90,8 @@ Print Assumptions C17_rb_after_any_history.
 Print Assumptions C17_avl_after_any_history.
 Print Assumptions C17_bt_after_any_history.
 Print Assumptions C17_bsearch_cost.
+Print Assumptions C17_bt_put_cost.
+Print Assumptions C17_bt_remove_cost.
+Print Assumptions C17_bt_mut_after_any_history.
+Print Assumptions C17_treemap_after_any_history.
+Print Assumptions C17_treeset_after_any_history.
